@@ -40,3 +40,13 @@ package keeper
 //@ contract (*Keeper).VerifyConnectionState
 //@   ensures verified: err == nil ==> LCVerifiedMembership(connection.ClientId, height, 0, 0, box(commitmenttypes.ApplyPrefix(connection.Counterparty.Prefix, commitmenttypes.NewMerklePath(slice1(host.ConnectionKey(connectionID))))), marshalOf(counterpartyConnection))
 //@   ensures pure: world(ctx) == old(world(ctx))
+
+// ---- identifier generation (C15)
+
+//@ contract (*Keeper).GenerateConnectionIdentifier
+//@   let S0 = store(ctx)
+//@   let next = unbe64(get(S0, types.KeyNextConnectionSequence))
+//@   modifies world(ctx)
+//@   ensures id: result == "connection-" + dec(next)
+//@   ensures counter: store(ctx) == set(S0, types.KeyNextConnectionSequence, be64((next + 1) % 18446744073709551616))
+//@   ensures only_store: world(ctx) == withKV(old(world(ctx)), k.storeService, store(ctx))
